@@ -92,7 +92,7 @@ def Family.okAt (f : Family) (look : String → List Nat → Unit) (ks : List Na
   if f.treeMode then
     (look f.unit ks).outs.length == f.nRaw ks &&
       (List.range (f.nOut ks)).all fun j =>
-        if f.treeWalk then treeEqv (implied true) (fun _ a b => f.leafOK ks j a b) [] ((look f.unit ks).out j) (f.specT ks j)
+        if f.treeWalk then treeEqv impliedAll (fun _ a b => f.leafOK ks j a b) [] ((look f.unit ks).out j) (f.specT ks j)
         else treeOK (f.leafOK ks j) ((look f.unit ks).out j) (f.specT ks j)
   else
   match (look f.unit ks).leafOuts with
